@@ -1,6 +1,7 @@
 import JunoModel.Common.Proto
 import JunoModel.C20.Model
 import JunoModel.C20.Heap
+import JunoModel.C20.Alias
 /-!
 Line-protocol driver for the C20 model (`lake build c20drv`). All numbers are decimal.
 
@@ -20,7 +21,8 @@ Line-protocol driver for the C20 model (`lake build c20drv`). All numbers are de
 
   classes: `-` or `h:d,h:d`     txs: `-` or `tx;tx`, tx = hash/tag/bad/rhash/rtag/events/diff
   diff: `-` or sections joined by `+`: s=a:k:v,..  n=a:v,..  d=a:c  r=a:c  c1=h:c  m=h:c  c0=h,h
-  table: sections joined by `+`: ch=a:c  no=a:n  st=a:k:v  cl=h:d  ca=h:c  c2=h:c   (absent = not found)
+  table: sections joined by `+`: ch=a:c  no=a:n  st=a:k:v  cl=h:d  ca=h:c  c2=h:c  lu=a:k:n  (absent = not found)
+  `state` appends ` lu[a:k=<as implemented>/<specified>,..]` (ContractStorageLastUpdatedBlock)
 -/
 open Juno.Proto Juno.C20
 
@@ -108,6 +110,7 @@ structure Tables where
   cl : AMap Nat Nat := []
   ca : AMap Nat Nat := []
   c2 : AMap Nat Nat := []
+  lu : AMap (Nat × Nat) Nat := []
 
 def parseTables? (s : String) : Option Tables :=
   (splitNonEmpty s "+").foldlM (init := ({} : Tables)) fun t sec =>
@@ -118,11 +121,13 @@ def parseTables? (s : String) : Option Tables :=
     | ["cl", v] => do pure { t with cl := (← pairs? v) }
     | ["ca", v] => do pure { t with ca := (← pairs? v) }
     | ["c2", v] => do pure { t with c2 := (← pairs? v) }
+    | ["lu", v] => do pure { t with lu := (← triples? v) }
     | _ => none
 
 def Tables.toBase (t : Tables) : Base :=
   { classHash := AMap.get t.ch, nonce := AMap.get t.no, storage := fun a k => AMap.get t.st (a, k),
-    cls := AMap.get t.cl, casm := AMap.get t.ca, casmV2 := AMap.get t.c2 }
+    cls := AMap.get t.cl, casm := AMap.get t.ca, casmV2 := AMap.get t.c2,
+    lastUpd := fun a k => AMap.get t.lu (a, k) }
 
 structure DState where
   store : Store := none
@@ -146,12 +151,28 @@ def showReads (s : DState) (p : PState) : String :=
   s!"ch[{",".intercalate ch}] no[{",".intercalate no}] st[{",".intercalate st}] " ++
   s!"cl[{",".intercalate cl}] ca[{",".intercalate ca}] c2[{",".intercalate c2}]"
 
+/-- `ContractStorageLastUpdatedBlock` over the universe: `as-implemented/specified` per slot -/
+def showLastUpd (s : DState) (p : PState) (es : List PreConf) : String :=
+  let xs := s.addrs.flatMap fun a => s.slots.map fun k =>
+    s!"{a}:{k}={showOpt (p.lastUpdated a k)}/{showOpt (lastUpdatedSpec es p.head a k)}"
+  s!"lu[{",".intercalate xs}]"
+
 /-- `StateAtBlockNumber(n)`; the harness registers every base it can be asked for -/
 def baseAt (s : DState) (n : Nat) : Option Base := (AMap.get s.bases n).map Tables.toBase
 
 def dummyBase : Base :=
   { classHash := fun _ => none, nonce := fun _ => none, storage := fun _ _ => none,
     cls := fun _ => none, casm := fun _ => none, casmV2 := fun _ => none }
+
+/-- the map-object model (`Alias.lean`) run on the same inputs: load every diff into fresh map
+objects, squash them with the object-level `Merge`, read the result back. `true` = the value model
+and the object model agree, and no pre-existing object was written. -/
+def aliasAgrees (ds : List Diff) (expect : Diff) : Bool :=
+  let (mem, ads) := ds.foldl (fun (acc : Alias.Mem × List Alias.ADiff) d =>
+      let (m, a) := Alias.load acc.1 d; (m, acc.2 ++ [a])) ([], [])
+  let (mem', r) := Alias.squash mem ads
+  showDiff (Alias.denote mem' r) == showDiff expect &&
+    (List.range mem.length).all (fun a => mem'[a]? == mem[a]?)
 
 def showOutcome : Outcome → String
   | .changed _ aff => "changed " ++ showEntry aff
@@ -164,7 +185,13 @@ def doApply (s : DState) (u : Update) (num baseTx oldest cls : String) : DState 
     let (st', out) := applyUpdate s.store u n t o c.reverse
     let (hs', hout) := happlyUpdate s.hstore u n t o c.reverse
     let agree := showOutcome out == showOutcome hout
-    ({ s with store := st', hstore := hs' }, if agree then showOutcome out else "HEAP-MISMATCH " ++ showOutcome hout)
+    let aliasOk := match out with
+      | .changed _ aff => aliasAgrees aff.txDiffs aff.diff
+      | _ => true
+    ({ s with store := st', hstore := hs' },
+      if !agree then "HEAP-MISMATCH " ++ showOutcome hout
+      else if !aliasOk then "ALIAS-MISMATCH " ++ showOutcome out
+      else showOutcome out)
   | _, _, _, _ => (s, "bad-op")
 
 def step (s : DState) (line : String) : DState × String :=
@@ -235,7 +262,10 @@ def step (s : DState) (line : String) : DState × String :=
             | some base =>
               match stateAt v blk (fun _ => base) with
               | none => "notfound"
-              | some p => showReads s p)
+              | some p =>
+                let es := v.oldestFirst.take (blk - (v.oldest - 1))
+                if aliasAgrees (es.map (·.diff)) p.diff then showReads s p ++ " " ++ showLastUpd s p es
+                else "ALIAS-MISMATCH")
     | _, _ => (s, "bad-op")
   | ["statebi", b, blk, idx] =>
     match nat? b, nat? blk, nat? idx with
